@@ -189,7 +189,8 @@ func (s *S) Arrive(kind, site string, info map[string]any) Outcome {
 			name = fmt.Sprintf("anon%d", s.anon)
 		}
 		// a library goroutine (abort, termCallbacks helper): register at first sight
-		if q := s.byName[name]; q != nil && !q.done {
+		if q := s.byName[name]; q != nil && !q.done && !(q.anon && q.gate == nil) {
+			// the name is taken by a live process (a library goroutine that is not parked has ended)
 			s.anon++
 			name = fmt.Sprintf("%s.%d", name, s.anon)
 		}
